@@ -86,3 +86,13 @@ package processor
 //@   ensures [first-pass-accumulates-columns] implies(iqr != nil && result1 == nil && len(old(p.options.FieldList)) == 0 && !old(p.secondPass), forallstr(c, implies(haskey(columns, c), haskey(p.knownColumns, c))))
 //@   ensures [first-pass-keeps-earlier-columns] implies(iqr != nil && result1 == nil && len(old(p.options.FieldList)) == 0 && !old(p.secondPass) && old(p.knownColumns) != nil, p.knownColumns == old(p.knownColumns) && forallstr(c, implies(old(haskey(p.knownColumns, c)), haskey(p.knownColumns, c))))
 //@ end
+
+// ---- sort-index search (C05): the searcher may stop reading the sort index
+// once the limit is reached only for single-key sorts; with several keys,
+// records tied on the first key may still be unread in other segments and a
+// limit would not take a prefix of the full order.
+//@ func (*Searcher).fetchSortedRRCsFromQSRs
+//@   props C05
+//@   site store s.sortIndexState.didEarlyExit #1:
+//@     assert [early-exit-only-for-single-key-sorts] !requiresFullLine && requiresFullLine == (len(s.sortExpr.SortEles) > 1)
+//@ end
